@@ -113,4 +113,55 @@ def invExgcd (F : Field) (a : Nat) : Option Nat :=
     | none => none
     | some g => some (if g.testBit F.m then g ^^^ F.f else g)
 
+/-! ## fb_inv_bruch (Brunner–Curiger–Hofstetter): exactly 2m passes, no data-dependent exit; operands live in n digits of w bits -/
+
+structure BruchSt where
+  r : Nat
+  s : Nat
+  u : Nat
+  v : Nat
+  delta : Nat
+
+/-- one pass of `for (i = 1; i <= 2m; i++)`; `fb_lsh` keeps w·n bits -/
+def bruchStep (wn m : Nat) (st : BruchSt) : BruchSt :=
+  let lsh := fun (x : Nat) => (x <<< 1) % 2 ^ wn
+  if !st.r.testBit m then { st with r := lsh st.r, u := lsh st.u, delta := st.delta + 1 }
+  else
+    let (s, v) := if st.s.testBit m then (st.s ^^^ st.r, st.v ^^^ st.u) else (st.s, st.v)
+    let s := lsh s
+    if st.delta = 0 then { r := s, s := st.r, u := lsh v, v := st.u, delta := 1 }
+    else { r := st.r, s := s, u := st.u >>> 1, v := v, delta := st.delta - 1 }
+
+def invBruch (w n : Nat) (F : Field) (a : Nat) : Option Nat :=
+  if a = 0 then none
+  else some ((List.range (2 * F.m)).foldl (fun st _ => bruchStep (w * n) F.m st) { r := a, s := F.f % 2 ^ (w * n), u := 1, v := 0, delta := 0 }).u
+
+/-! ## fb_inv_ctaia (constant-time almost inverse): exactly 2m − 1 passes -/
+
+structure CtaiaSt where
+  r : Nat
+  s : Nat
+  u : Nat
+  v : Nat
+  d : Int
+
+/-- one pass of `for (k = 1; k < 2m; k++)`: the masked digit loop (s and v take the UPDATED r and u), the conditional negation of d,
+    r /= z, u = (z | u ? u : u + f)/z, d-- -/
+def ctaiaStep (wn : Nat) (f : Nat) (st : CtaiaSt) : CtaiaSt :=
+  let r0 := st.r % 2 = 1
+  let neg := st.d < 0
+  let r := if r0 then st.r ^^^ st.s else st.r
+  let u := if r0 then st.u ^^^ st.v else st.u
+  let s := if neg then st.s ^^^ r else st.s
+  let v := if neg then st.v ^^^ u else st.v
+  let d := if r0 ∧ neg then -st.d else st.d
+  let u := (if u % 2 = 1 then (u ^^^ f) % 2 ^ wn else u) >>> 1
+  { r := r >>> 1, s := s, u := u, v := v, d := d - 1 }
+
+def invCtaia (w n : Nat) (F : Field) (a : Nat) : Option Nat :=
+  if a = 0 then none
+  else
+    let f := F.f % 2 ^ (w * n)
+    some ((List.range (2 * F.m - 1)).foldl (fun st _ => ctaiaStep (w * n) f st) { r := a, s := f, u := 1, v := 0, d := -1 }).v
+
 end Relic.Model.FbInv
